@@ -490,6 +490,10 @@ pub fn analyse(sc: &Scenario, out: &RunOutput) -> Analysis {
     // ---- walk the trace
     let mut findings_extra: Vec<Finding> = Vec::new();
     let mut announced: HashMap<(u32, u32), BTreeSet<RecKey>> = HashMap::new();
+    // incarnations one of whose announcement sends met an injected syscall error: the rest of
+    // that announcement may legitimately never be sent, so completeness is not judged for them
+    let mut announce_send_failed: HashSet<(u32, u32)> = HashSet::new();
+    let mut last_announce_t: HashMap<(u32, u32), u64> = HashMap::new();
     let mut pending: HashMap<u32, Pending> = HashMap::new();
     let mut windows: HashMap<u32, Window> = HashMap::new();
     let mut dgram_exact: HashMap<u32, bool> = HashMap::new();
@@ -921,6 +925,10 @@ pub fn analyse(sc: &Scenario, out: &RunOutput) -> Analysis {
                                     if msg.is_response() {
                                         st.announcements_judged += 1;
                                         announced.entry((node, m.inc)).or_default().extend(msg.answers.iter().chain(msg.additional.iter()).map(|r| r.key().norm()));
+                                        if err.is_some() {
+                                            announce_send_failed.insert((node, m.inc));
+                                        }
+                                        last_announce_t.insert((node, m.inc), tglob);
                                         judge_announcement(node, m, instance, *ttl, &msg, &mut findings_extra);
                                     }
                                 }
@@ -949,6 +957,10 @@ pub fn analyse(sc: &Scenario, out: &RunOutput) -> Analysis {
                                 if msg.is_response() {
                                     st.announcements_judged += 1;
                                     announced.entry((node, m.inc)).or_default().extend(msg.answers.iter().chain(msg.additional.iter()).map(|r| r.key().norm()));
+                                    if err.is_some() {
+                                        announce_send_failed.insert((node, m.inc));
+                                    }
+                                    last_announce_t.insert((node, m.inc), tglob);
                                     judge_announcement(node, m, instance, *ttl, &msg, &mut findings_extra);
                                 }
                             }
@@ -1139,7 +1151,10 @@ pub fn analyse(sc: &Scenario, out: &RunOutput) -> Analysis {
 
     for ((node, inc), set) in &announced {
         let m = &models[*node as usize];
-        if m.inc != *inc {
+        // a crash or the end of the run may cut an announcement between two of its datagrams
+        let run_end = res.trace.last().map(|e| e.t).unwrap_or(0);
+        let recent = last_announce_t.get(&(*node, *inc)).map_or(false, |t| run_end.saturating_sub(*t) < 1_000_000_000);
+        if m.inc != *inc || announce_send_failed.contains(&(*node, *inc)) || crashed.contains(node) || st.cut_short || recent {
             continue;
         }
         if let NodeKind::Discovery { instance, ttl, .. } = &sc.nodes[*node as usize].kind {
